@@ -113,7 +113,7 @@ def build(reg):
          raises={"TypeError": dict(when=f"not ({BASE_KEYS} and params.has_MOTIF_INDICES)")})
     E = "EdgeList"; MID = f"{E}._motif_id[p]"
     RES = "motif_edges(self._build_functions[rec_j[{m}]], rec_vs[{m}])"; NMS = "motif_edge_names(self._edge_names[rec_j[{m}]])"
-    COLS = {"par1": f"len({E}._edge_list) == len({E}._topologies)", "par2": f"len({E}._edge_list) == len({E}._motif_id)", "gen": "gen >= 0", "jds": f"{E}._joint_degrees == jds",
+    COLS = {"par1": f"len({E}._edge_list) == len({E}._topologies)", "par2": f"len({E}._edge_list) == len({E}._motif_id)", "gen": "gen >= 0", "jds": f"(len({E}._joint_degrees) == len(jds) and forall(vj, 0, len(jds), {E}._joint_degrees[vj] == jds[vj], trigger={E}._joint_degrees[vj]))",
             "ids": f"forall(p, 0, len({E}._motif_id), 0 <= {MID} and {MID} < gen)",
             "blk_lo": f"forall(p, 0, len({E}._edge_list), rec_start[{MID}] <= p)",
             "blk_hi": f"forall(p, 0, len({E}._edge_list), p < rec_start[{MID}] + len({RES.format(m=MID)}))",
@@ -131,11 +131,11 @@ def build(reg):
                    "orbits": "forall(j, 0, len(self._motif_indices), len(self._motif_indices[j]) >= 1 and forall(o, 0, len(self._motif_indices[j]), 0 <= self._motif_indices[j][o] and self._motif_indices[j][o] < len(self._motif_sizes)))",
                    "naming_callback_matches_build_callback_position_by_position": SHAPE},
          ensures={"columns_parallel": "len(result._edge_list) == len(result._topologies) and len(result._edge_list) == len(result._motif_id)",
-                  "jds_carried": "result._joint_degrees == old(jds)",
+                  "jds_carried": "len(result._joint_degrees) == len(old(jds)) and forall(vj, 0, len(old(jds)), result._joint_degrees[vj] == old(jds)[vj], trigger=result._joint_degrees[vj])",
                   **{"blocks." + k: v.replace(f"{E}.", "result.") for k, v in COLS.items() if k in ("ids", "blk_lo", "blk_hi", "edge", "name", "chain0", "chain", "chainN")}},
          raises={"IndexError": dict(when="True", only=False), "ZeroDivisionError": dict(when="True", only=False)},
          loops={0: dict(inv={"frame": "self == old(self) and jds == old(jds)"}),
-                1: dict(inv={"frame": "self == old(self) and jds == old(jds) and EdgeList._joint_degrees == jds and len(EdgeList._edge_list) == 0 and len(EdgeList._topologies) == 0 and len(EdgeList._motif_id) == 0", "parts": "len(partitions) == IT"}),
+                1: dict(inv={"frame": "self == old(self) and jds == old(jds) and len(EdgeList._joint_degrees) == len(jds) and forall(vj, 0, len(jds), EdgeList._joint_degrees[vj] == jds[vj], trigger=EdgeList._joint_degrees[vj]) and len(EdgeList._edge_list) == 0 and len(EdgeList._topologies) == 0 and len(EdgeList._motif_id) == 0", "parts": "len(partitions) == IT"}),
                 2: dict(inv={**COLS, "j": "forall(m, 0, gen, rec_j[m] < IT)"}),
                 3: dict(inv={**COLS, "j": "forall(m, 0, gen, rec_j[m] <= j)", "ctx": "0 <= j and j < len(self._motif_indices) and motif_indexes == self._motif_indices[j]"},
                         ghost_end=["rec_j[id] = j", "rec_vs[id] = vertices", f"rec_start[id] = len({E}._edge_list) - len(motif_edges(self._build_functions[j], vertices))"]),
